@@ -29,6 +29,9 @@ type c09Case struct {
 	// row count, so nothing may be dropped); "" = block
 	Strategy string `json:"overflow_strategy,omitempty"`
 	FnKey    bool   `json:"function_key,omitempty"` // GROUP BY upper(k1): the window must partition by the computed value
+	// KeyForm of the first grouping column: "" plain name | "nested" (GROUP BY d.k1, rows carry d:{k1:..}) |
+	// "backquoted" (GROUP BY `k1`)
+	KeyForm string `json:"first_key_form,omitempty"`
 }
 
 func genC09(ref core.CaseRef, r *rand.Rand) *c09Case {
@@ -118,6 +121,13 @@ func genC09(ref core.CaseRef, r *rand.Rand) *c09Case {
 	gb := append(append([]string{}, c.Cols...), fmt.Sprintf("CountingWindow(%d)", c.N))
 	if c.FnKey {
 		sel[0], gb[0] = "upper(k1) AS k1", "upper(k1)"
+	} else if ncols >= 1 && ref.Index%8 == 6 {
+		c.KeyForm = pick(r, []string{"nested", "backquoted"})
+		if c.KeyForm == "nested" {
+			sel[0], gb[0] = "d.k1 AS k1", "d.k1"
+		} else {
+			sel[0], gb[0] = "`k1` AS k1", "`k1`"
+		}
 	}
 	c.SQL = "SELECT " + strings.Join(sel, ", ") + " FROM stream GROUP BY " + strings.Join(gb, ", ")
 	return c
@@ -203,8 +213,30 @@ func execC09(ctx *core.Ctx, c *c09Case) {
 			}
 		}
 	}
-	res := runWindow(c.SQL, c.Rows, ro)
-	attrs := map[string]string{"key_shape": c.Shape, "ncols": fmt.Sprint(len(c.Cols))}
+	feed := c.Rows
+	if c.KeyForm == "nested" {
+		// the rows as the caller sends them: the first key column lives inside the object d
+		feed = make([]Row, len(c.Rows))
+		for i, row := range c.Rows {
+			cp := Row{}
+			for k, v := range row {
+				if k != "k1" {
+					cp[k] = v
+				}
+			}
+			if v, ok := row["k1"]; ok {
+				cp["d"] = map[string]any{"k1": v}
+			} else if i%2 == 0 {
+				cp["d"] = map[string]any{}
+			}
+			feed[i] = cp
+		}
+	}
+	if c.KeyForm != "" {
+		ctx.Count("cases_key_form_"+c.KeyForm, 1)
+	}
+	res := runWindow(c.SQL, feed, ro)
+	attrs := map[string]string{"key_shape": c.Shape, "ncols": fmt.Sprint(len(c.Cols)), "first_key_form": c.KeyForm}
 	if res.Err != nil {
 		ctx.Violate(core.Violation{Kind: "counting.execute_error", Attrs: attrs, Detail: res.Err.Error(), Case: c})
 		return
